@@ -114,7 +114,8 @@ EXPORT errno_t _strcasecmp_s_chk(const char *dest, rsize_t dmax,
         dmax--;
     }
 
-    *resultp = toupper(*udest) - toupper(*usrc);
+    /* after dmax equal characters the compared parts are equal */
+    *resultp = dmax ? toupper(*udest) - toupper(*usrc) : 0;
     return RCNEGATE(EOK);
 }
 #ifdef __KERNEL__
